@@ -686,7 +686,7 @@ def main(argv: list[str]) -> int:
     tv = validate_store_traces(scen)
     for rej in tv["rejected"][:5]:
         v.violation("trace:" + json.dumps(rej["at"]), rej, "recorded store trace is not a behaviour of Trace_Incremental.tla: " + rej["why"])
-    if tv["validated"] == 0 or n_runs == 0:
+    if (tv["validated"] == 0 and not tv["rejected"]) or n_runs == 0:
         raise MachineryError("conformance step did not run")
     nontrivial = sum(1 for r in results + rresults + cresults + tresults + gresults if r["nontrivial"])
     coverage = {
